@@ -85,4 +85,6 @@ type ConfirmResult struct {
 	PeakLive   uint64  `json:"peaklive"` // largest live heap (after forced GC) seen by the sampler
 	PeakHeap   uint64  `json:"peakheap"` // largest HeapAlloc seen (upper bound)
 	Samples    int     `json:"samples"`
+	HeapSys    uint64  `json:"heapsys"`    // heap memory obtained from the OS after the call (high-water mark)
+	TotalAlloc uint64  `json:"totalalloc"` // bytes allocated during the call
 }
